@@ -79,10 +79,13 @@ def run(ck):
             ck.violation('C15:abort:%s' % tag, {'rc': r.returncode, 'stdout': out[-400:], 'stderr': r.stderr.decode('latin-1')[-400:]})
             continue
         n = int(done[0].split('lists=')[1].split()[0])
+        nbad = int(done[0].split('mismatches=')[1].split()[0])
+        if nbad and not any(l.startswith('MISMATCH') for l in out.splitlines()):
+            ck.violation('C15:mismatches_%d:%s' % (nbad, tag), {'chain': [x.decode() for x in c], 'stdout': out[-300:]})
         evals += n
         outcomes.add((tag, done[0]))
         for l in out.splitlines():
-            if l.startswith('MISMATCH'):
+            if l.startswith('MISMATCH') and 'got=' in l and 'list=' in l:
                 ck.violation('C15:%s:%s' % (l.split('got=')[1].replace(' ', '_'), tag) + ':' + l.split('list=')[1].split(' got=')[0][:60],
                              {'chain': [x.decode() for x in c], 'own_name': selfname.decode(), 'proc_hidden': bool(hide), 'line': l, 'ancestors': [a for a in out.splitlines() if a.startswith('ANC')][:1]})
         if len(samples) < 4 and len(outcomes) % 211 == 5:
